@@ -46,7 +46,11 @@ CONSTANTS Procs,      \* request slots, a set of positive integers
                       \* "own": slot p always gets object p (an ideal pool without sharing: lets TLC
                       \*        study the pools one at a time with three requests)
           FormOf,     \* [Procs -> Forms]: the request-target form of each slot's request
-          MwEnabled,  \* BOOLEAN: the middleware's level is enabled in the base handler.  When it is
+          UpOf,       \* [Procs -> Seq(WrapperKinds)]: the foreign ResponseWriter wrappers between the client's
+                      \* writer and the LogMiddleware on each slot's route, outermost first
+          MaxToggles, \* how often the environment changes the logger's level (SetLevel)
+          MwEnabled,  \* BOOLEAN: the middleware's level is enabled in the base handler WHEN THE MIDDLEWARE
+                      \* IS CONSTRUCTED; afterwards the level is environment state (lvl.on).  When it is
                       \* not, "started" / "finished" are not emitted (and rw.code is never read), but the
                       \* context logger must carry the request's attributes all the same: the inner
                       \* handler may log at a level that IS enabled.
@@ -67,14 +71,16 @@ VARIABLES pc,         \* [Procs -> step name]
           fincode,    \* the evaluated "code" argument of the finished record
           client,     \* [Procs -> calls received by that request's own http.ResponseWriter]
           stray,      \* calls that reached the writer of a request that is not live any more
-          records     \* history: log records handed to the base handler
+          records,    \* history: log records handed to the base handler
+          lvl         \* the logger's level, mutable (slog.LevelVar): [on |-> the middleware's level is
+                      \* enabled now, n |-> changes so far]
 
 vars == <<pc, rid, ops, ip, nA, nQ, nW, freeA, freeQ, freeW, attrObj, reqObj, rwObj,
-          hA, hQ, hW, lg, fincode, client, stray, records>>
+          hA, hQ, hW, lg, fincode, client, stray, records, lvl>>
 
 (* Everything but the history variable; used as VIEW when model checking. *)
 View == <<pc, rid, ops, ip, nA, nQ, nW, freeA, freeQ, freeW, attrObj, reqObj, rwObj,
-          hA, hQ, hW, lg, fincode, client, stray>>
+          hA, hQ, hW, lg, fincode, client, stray, lvl>>
 
 ----------------------------------------------------------------------------
 NoLogger == [k |-> "none", a |-> 0, v |-> 0]
@@ -88,9 +94,16 @@ FirstStep == IF Fast THEN "getreq" ELSE "getattr"
 (* The request whose attributes a logger carries at this moment. *)
 LgRid(l) == IF l.k = "ref" THEN attrObj[l.a] ELSE l.v
 
+(* A capability call reaches the client's writer iff every foreign wrapper  *)
+(* on the way lets it through and the client's writer has it.                *)
+Reach(p, o) == \/ o.op \in {"w", "wh"}
+               \/ /\ o.op \in Capabilities
+                  /\ ChainPasses(UpOf[p], o.op)
+                  /\ ~(o.op = "hj" /\ o.c = 3)
+
 (* The calls process p has completed so far, as its own client must see them. *)
 Wrote(p) == LET done == [i \in 1..(ip[p] - 1) |-> [op |-> ops[p][i].op, c |-> ops[p][i].c, by |-> rid[p]]]
-            IN SelectSeq(done, LAMBDA e : ~(e.op = "hj" /\ e.c = 3))     \* no Hijacker underneath: nothing to receive
+            IN SelectSeq(done, LAMBDA e : Reach(p, e))     \* what cannot get through has nothing to be received
 
 Max(a, b) == IF a > b THEN a ELSE b
 Cand(pol, free, n, p) ==
@@ -122,13 +135,23 @@ InitWith(o) ==
     /\ client = [p \in Procs |-> <<>>]
     /\ stray = 0
     /\ records = <<>>
+    /\ lvl = [on |-> MwEnabled, n |-> 0]
 
 Init == \E o \in InitOps : InitWith(o)
 
 Goto(p, l) == pc' = [pc EXCEPT ![p] = l]
 
+(* logFinished asks `l.Enabled(ctx, mw.lvl)`, i.e. the live level.  (Variant *)
+(* "cachedEnabled": it looks at a flag computed once by NewLogMiddleware.)   *)
+FinGate == IF Variant = "cachedEnabled" THEN MwEnabled ELSE lvl.on
+
 (* request-target forms per slot (a .cfg cannot hold functions) *)
 FormSeq(a, b, c) == [p \in Procs |-> IF p = 1 THEN a ELSE IF p = 2 THEN b ELSE c]
+UpSeq(a, b, c) == [p \in Procs |-> IF p = 1 THEN a ELSE IF p = 2 THEN b ELSE c]
+UpNone == [p \in Procs |-> <<>>]
+UpUFO == UpSeq(<<"unwrap">>, <<"flushfwd">>, <<"opaque">>)
+UpUUN == UpSeq(<<"unwrap", "unwrap">>, <<>>, <<"unwrap">>)
+UpONU == UpSeq(<<"opaque">>, <<>>, <<"unwrap", "flushfwd">>)
 FormsOrigin == [p \in Procs |-> "origin"]
 FormsOAU == FormSeq("origin", "absolute", "authority")
 FormsAUS == FormSeq("absolute", "authority", "asterisk")
@@ -172,7 +195,7 @@ Begin(p, r, o) ==
     /\ ip' = [ip EXCEPT ![p] = 1]
     /\ client' = [client EXCEPT ![p] = <<>>]
     /\ Goto(p, FirstStep)
-    /\ UNCHANGED <<nA, nQ, nW, freeA, freeQ, freeW, attrObj, reqObj, rwObj, hA, hQ, hW, lg,
+    /\ UNCHANGED <<lvl, nA, nQ, nW, freeA, freeQ, freeW, attrObj, reqObj, rwObj, hA, hQ, hW, lg,
                    fincode, stray, records>>
 
 GetAttrObj(p, a) ==
@@ -183,7 +206,7 @@ GetAttrObj(p, a) ==
     /\ attrObj' = Put(attrObj, a, rid[p])
     /\ hA' = [hA EXCEPT ![p] = a]
     /\ Goto(p, After("getattr"))
-    /\ UNCHANGED <<rid, ops, ip, nQ, nW, freeQ, freeW, reqObj, rwObj, hQ, hW, lg, fincode,
+    /\ UNCHANGED <<lvl, rid, ops, ip, nQ, nW, freeQ, freeW, reqObj, rwObj, hQ, hW, lg, fincode,
                    client, stray, records>>
 GetAttr(p) == \E a \in 1..(nA + 1) : GetAttrObj(p, a)
 
@@ -192,7 +215,7 @@ WithAttrs(p) ==
     /\ lg' = [lg EXCEPT ![p] = IF Retain THEN [k |-> "ref", a |-> hA[p], v |-> 0]
                                          ELSE [k |-> "copy", a |-> 0, v |-> attrObj[hA[p]]]]
     /\ Goto(p, After("withattrs"))
-    /\ UNCHANGED <<rid, ops, ip, nA, nQ, nW, freeA, freeQ, freeW, attrObj, reqObj, rwObj,
+    /\ UNCHANGED <<lvl, rid, ops, ip, nA, nQ, nW, freeA, freeQ, freeW, attrObj, reqObj, rwObj,
                    hA, hQ, hW, fincode, client, stray, records>>
 
 GetReqObj(p, q) ==
@@ -206,7 +229,7 @@ GetReqObj(p, q) ==
                                   tm |-> IF Variant = "cloneRequest" THEN 0 ELSE rid[p]])
     /\ hQ' = [hQ EXCEPT ![p] = q]
     /\ Goto(p, After("getreq"))
-    /\ UNCHANGED <<rid, ops, ip, nA, nW, freeA, freeW, attrObj, rwObj, hA, hW, lg, fincode,
+    /\ UNCHANGED <<lvl, rid, ops, ip, nA, nW, freeA, freeW, attrObj, rwObj, hA, hW, lg, fincode,
                    client, stray, records>>
 GetReq(p) == \E q \in 1..(nQ + 1) : GetReqObj(p, q)
 
@@ -220,16 +243,16 @@ GetRwObj(p, w) ==
                                hj |-> IF Variant = "stickyHijack" /\ w <= nW THEN rwObj[w].hj ELSE FALSE])
     /\ hW' = [hW EXCEPT ![p] = w]
     /\ Goto(p, After("getrw"))
-    /\ UNCHANGED <<rid, ops, ip, nA, nQ, freeA, freeQ, attrObj, reqObj, hA, hQ, lg, fincode,
+    /\ UNCHANGED <<lvl, rid, ops, ip, nA, nQ, freeA, freeQ, attrObj, reqObj, hA, hQ, lg, fincode,
                    client, stray, records>>
 GetRw(p) == \E w \in 1..(nW + 1) : GetRwObj(p, w)
 
 StartedRec(p) == [m |-> "started", by |-> rid[p], ar |-> LgRid(lg[p]), c |-> 0]
 Started(p) ==
     /\ pc[p] = "started"
-    /\ records' = (IF MwEnabled THEN Rec(StartedRec(p)) ELSE records)
+    /\ records' = (IF lvl.on THEN Rec(StartedRec(p)) ELSE records)     \* l.Log asks the live level
     /\ Goto(p, After("started"))
-    /\ UNCHANGED <<rid, ops, ip, nA, nQ, nW, freeA, freeQ, freeW, attrObj, reqObj, rwObj,
+    /\ UNCHANGED <<lvl, rid, ops, ip, nA, nQ, nW, freeA, freeQ, freeW, attrObj, reqObj, rwObj,
                    hA, hQ, hW, lg, fincode, client, stray>>
 
 (* What the inner handler of p observes right now: the request in the pooled *)
@@ -249,7 +272,7 @@ HPre(p) ==
     /\ pc[p] = "hpre"
     /\ records' = Rec(ProbeRec(p))
     /\ Goto(p, IF Len(ops[p]) = 0 THEN "hpost" ELSE "op")
-    /\ UNCHANGED <<rid, ops, ip, nA, nQ, nW, freeA, freeQ, freeW, attrObj, reqObj, rwObj,
+    /\ UNCHANGED <<lvl, rid, ops, ip, nA, nQ, nW, freeA, freeQ, freeW, attrObj, reqObj, rwObj,
                    hA, hQ, hW, lg, fincode, client, stray>>
 
 (* The wrapper's half of the call: WriteHeader records the code; Hijack and  *)
@@ -259,7 +282,14 @@ HPre(p) ==
 (* swallow later Write / WriteHeader calls and that Reset does not clear.)   *)
 Sticky == Variant = "stickyHijack"
 Swallowed(p, o) == Sticky /\ hW[p] # 0 /\ rwObj[hW[p]].hj /\ o.op \in {"w", "wh"}
-NotCalled(p, o) == (o.op = "hj" /\ o.c = 3) \/ Swallowed(p, o)     \* the client writer is not reached
+(* A capability call reaches the client's writer iff every foreign wrapper  *)
+(* on the way lets it through and the client's writer has it.  (Variant      *)
+(* "hijackByAssertion": the recorder's Hijack does `w.rw.(http.Hijacker)`    *)
+(* instead of using a ResponseController, so it only sees the writer right   *)
+(* next to it - an Unwrap-only wrapper there ends the search.)               *)
+AssertionMiss(p, o) == /\ Variant = "hijackByAssertion" /\ o.op = "hj" /\ hW[p] # 0
+                       /\ Len(UpOf[p]) > 0        \* the neighbour is a foreign wrapper: none of them is a Hijacker
+NotCalled(p, o) == ~Reach(p, o) \/ AssertionMiss(p, o) \/ Swallowed(p, o)     \* the client writer is not reached
 Op(p) ==
     /\ pc[p] = "op"
     /\ LET o == ops[p][ip[p]] IN
@@ -269,7 +299,7 @@ Op(p) ==
                       ELSE rwObj
          /\ ip' = IF NotCalled(p, o) THEN [ip EXCEPT ![p] = @ + 1] ELSE ip
          /\ Goto(p, IF ~NotCalled(p, o) THEN "cw" ELSE IF ip[p] = Len(ops[p]) THEN "hpost" ELSE "op")
-    /\ UNCHANGED <<rid, ops, nA, nQ, nW, freeA, freeQ, freeW, attrObj, reqObj,
+    /\ UNCHANGED <<lvl, rid, ops, nA, nQ, nW, freeA, freeQ, freeW, attrObj, reqObj,
                    hA, hQ, hW, lg, fincode, client, stray, records>>
 
 (* The client writer's half: the call reaches whatever writer the wrapper   *)
@@ -286,14 +316,14 @@ Cw(p) ==
                  /\ UNCHANGED client
     /\ ip' = [ip EXCEPT ![p] = @ + 1]
     /\ Goto(p, IF ip[p] = Len(ops[p]) THEN "hpost" ELSE "op")
-    /\ UNCHANGED <<rid, ops, nA, nQ, nW, freeA, freeQ, freeW, attrObj, reqObj, rwObj,
+    /\ UNCHANGED <<lvl, rid, ops, nA, nQ, nW, freeA, freeQ, freeW, attrObj, reqObj, rwObj,
                    hA, hQ, hW, lg, fincode, records>>
 
 HPost(p) ==
     /\ pc[p] = "hpost"
     /\ records' = Rec(ProbeRec(p))
     /\ Goto(p, After("hpost"))
-    /\ UNCHANGED <<rid, ops, ip, nA, nQ, nW, freeA, freeQ, freeW, attrObj, reqObj, rwObj,
+    /\ UNCHANGED <<lvl, rid, ops, ip, nA, nQ, nW, freeA, freeQ, freeW, attrObj, reqObj, rwObj,
                    hA, hQ, hW, lg, fincode, client, stray>>
 
 SetImpl(p) ==
@@ -301,22 +331,22 @@ SetImpl(p) ==
     /\ rwObj' = IF rwObj[hW[p]].code = 0 /\ Variant # "noImplicit"
                   THEN [rwObj EXCEPT ![hW[p]].code = 200] ELSE rwObj
     /\ Goto(p, After("setimpl"))
-    /\ UNCHANGED <<rid, ops, ip, nA, nQ, nW, freeA, freeQ, freeW, attrObj, reqObj,
+    /\ UNCHANGED <<lvl, rid, ops, ip, nA, nQ, nW, freeA, freeQ, freeW, attrObj, reqObj,
                    hA, hQ, hW, lg, fincode, client, stray, records>>
 
 ReadCode(p) ==
     /\ pc[p] = "readcode"
-    /\ fincode' = (IF MwEnabled THEN [fincode EXCEPT ![p] = rwObj[hW[p]].code] ELSE fincode)
+    /\ fincode' = (IF FinGate THEN [fincode EXCEPT ![p] = rwObj[hW[p]].code] ELSE fincode)
     /\ Goto(p, After("readcode"))
-    /\ UNCHANGED <<rid, ops, ip, nA, nQ, nW, freeA, freeQ, freeW, attrObj, reqObj, rwObj,
+    /\ UNCHANGED <<lvl, rid, ops, ip, nA, nQ, nW, freeA, freeQ, freeW, attrObj, reqObj, rwObj,
                    hA, hQ, hW, lg, client, stray, records>>
 
 FinishedRec(p) == [m |-> "finished", by |-> rid[p], ar |-> LgRid(lg[p]), c |-> fincode[p]]
 Finished(p) ==
     /\ pc[p] = "finished"
-    /\ records' = (IF MwEnabled THEN Rec(FinishedRec(p)) ELSE records)
+    /\ records' = (IF FinGate /\ lvl.on THEN Rec(FinishedRec(p)) ELSE records)
     /\ Goto(p, After("finished"))
-    /\ UNCHANGED <<rid, ops, ip, nA, nQ, nW, freeA, freeQ, freeW, attrObj, reqObj, rwObj,
+    /\ UNCHANGED <<lvl, rid, ops, ip, nA, nQ, nW, freeA, freeQ, freeW, attrObj, reqObj, rwObj,
                    hA, hQ, hW, lg, fincode, client, stray>>
 
 (* Put: the object is free again; the local pointer is dead unless the      *)
@@ -326,7 +356,7 @@ PutRw(p) ==
     /\ freeW' = freeW \cup {hW[p]}
     /\ hW' = IF EarlyPut("rw") THEN hW ELSE [hW EXCEPT ![p] = 0]
     /\ Goto(p, After("putrw"))
-    /\ UNCHANGED <<rid, ops, ip, nA, nQ, nW, freeA, freeQ, attrObj, reqObj, rwObj,
+    /\ UNCHANGED <<lvl, rid, ops, ip, nA, nQ, nW, freeA, freeQ, attrObj, reqObj, rwObj,
                    hA, hQ, lg, fincode, client, stray, records>>
 
 PutReq(p) ==
@@ -334,7 +364,7 @@ PutReq(p) ==
     /\ freeQ' = freeQ \cup {hQ[p]}
     /\ hQ' = IF EarlyPut("req") THEN hQ ELSE [hQ EXCEPT ![p] = 0]
     /\ Goto(p, After("putreq"))
-    /\ UNCHANGED <<rid, ops, ip, nA, nQ, nW, freeA, freeW, attrObj, reqObj, rwObj,
+    /\ UNCHANGED <<lvl, rid, ops, ip, nA, nQ, nW, freeA, freeW, attrObj, reqObj, rwObj,
                    hA, hW, lg, fincode, client, stray, records>>
 
 PutAttr(p) ==
@@ -342,7 +372,7 @@ PutAttr(p) ==
     /\ freeA' = freeA \cup {hA[p]}
     /\ hA' = IF EarlyPut("attr") THEN hA ELSE [hA EXCEPT ![p] = 0]
     /\ Goto(p, After("putattr"))
-    /\ UNCHANGED <<rid, ops, ip, nA, nQ, nW, freeQ, freeW, attrObj, reqObj, rwObj,
+    /\ UNCHANGED <<lvl, rid, ops, ip, nA, nQ, nW, freeQ, freeW, attrObj, reqObj, rwObj,
                    hQ, hW, lg, fincode, client, stray, records>>
 
 (* ServeHTTP returns: every local dies. *)
@@ -352,14 +382,25 @@ End(p) ==
     /\ lg' = [lg EXCEPT ![p] = NoLogger]
     /\ fincode' = [fincode EXCEPT ![p] = 0]
     /\ Goto(p, "done")
-    /\ UNCHANGED <<rid, ops, ip, nA, nQ, nW, freeA, freeQ, freeW, attrObj, reqObj, rwObj,
+    /\ UNCHANGED <<lvl, rid, ops, ip, nA, nQ, nW, freeA, freeQ, freeW, attrObj, reqObj, rwObj,
                    client, stray, records>>
 
 Step(p) == \/ GetAttr(p) \/ WithAttrs(p) \/ GetReq(p) \/ GetRw(p) \/ Started(p) \/ HPre(p)
            \/ Op(p) \/ Cw(p) \/ HPost(p) \/ SetImpl(p) \/ ReadCode(p) \/ Finished(p)
            \/ PutRw(p) \/ PutReq(p) \/ PutAttr(p) \/ End(p)
 
-Next == \E p \in Procs : Step(p)
+(* The environment changes the logger's level (slog.LevelVar.Set): between   *)
+(* the construction of the middleware and the requests, and between          *)
+(* requests - never while a request is in flight, so that "the level at the  *)
+(* time of the request" is well defined.                                     *)
+Quiet == \A p \in Procs : pc[p] \in {"idle", "done", FirstStep} /\ hA[p] = 0 /\ hQ[p] = 0 /\ hW[p] = 0
+SetLevel == /\ lvl.n < MaxToggles
+            /\ Quiet
+            /\ lvl' = [on |-> ~lvl.on, n |-> lvl.n + 1]
+            /\ UNCHANGED <<pc, rid, ops, ip, nA, nQ, nW, freeA, freeQ, freeW, attrObj, reqObj, rwObj,
+                           hA, hQ, hW, lg, fincode, client, stray, records>>
+
+Next == (\E p \in Procs : Step(p)) \/ SetLevel
 
 Spec == Init /\ [][Next]_vars
 
@@ -403,7 +444,7 @@ FreshAfterReset == \A p \in Procs : (pc[p] = "started" /\ hW[p] # 0) =>
                       rwObj[hW[p]] = [cl |-> rid[p], code |-> 0, hj |-> FALSE]
 
 (* The finished record reports the code this invocation set, or 200. *)
-FinishedCode == \A p \in Procs : (MwEnabled /\ pc[p] = "finished") =>
+FinishedCode == \A p \in Procs : (lvl.on /\ pc[p] = "finished") =>
                    /\ fincode[p] = ExpectedFin(ops[p])
                    /\ fincode[p] \in AllowedFin(ops[p])
 
@@ -416,6 +457,14 @@ ClientExact == /\ stray = 0
 RecordsOwn == \A i \in 1..Len(records) : records[i].ar = records[i].by
 CountOf(m, r) == Cardinality({i \in 1..Len(records) : records[i].m = m /\ records[i].by = r})
 OncePerRequest == \A p \in Procs : pc[p] = "done" =>
-                     /\ CountOf("started", rid[p]) = (IF MwEnabled THEN 1 ELSE 0)
-                     /\ CountOf("finished", rid[p]) = (IF MwEnabled THEN 1 ELSE 0)
+                     /\ CountOf("started", rid[p]) <= 1
+                     /\ CountOf("finished", rid[p]) = CountOf("started", rid[p])
+
+(* The records of a request are governed by the logger's level AT THE TIME  *)
+(* OF THAT REQUEST (the level only changes while no request is in flight,    *)
+(* so it is still that level right after the finished step).                 *)
+AfterFinished == {"putrw", "putreq", "putattr", "end"}
+LevelGoverns == \A p \in Procs : (Variant \in {"asWritten", "cachedEnabled"} /\ pc[p] \in AfterFinished) =>
+                   /\ CountOf("started", rid[p]) = (IF lvl.on THEN 1 ELSE 0)
+                   /\ CountOf("finished", rid[p]) = (IF lvl.on THEN 1 ELSE 0)
 =============================================================================
